@@ -20,6 +20,8 @@ SOURCES = [
     ('bugfix/OTHER-5', 'OTHER-5', 'OTHER'),
     ('bugfix/EST-7', 'EST-7', 'EST'),        # substring of a configured key
     ('bugfix/T-3', 'T-3', 'T'),
+    ('bugfix/TESTING-12', 'TESTING-12', 'TESTING'),  # a configured key is a prefix
+    ('feature/zenkox-7', 'ZENKOX-7', 'ZENKOX'),
     ('bugfix/ZENKO-8', 'ZENKO-8', 'ZENKO'),  # second configured key
     ('bugfix/TEST-404', 'TEST-404', 'TEST'),
     ('dependabot/pip/x-1.2', None, None),
